@@ -11,6 +11,9 @@ def run_group(ctx, name):
     ctx._groups_done.add(name)
 
 
-def run_all(ctx):
-    for g in GROUPS:
+THOROUGH_GROUPS = ['rules_sweep']
+
+
+def run_all(ctx, thorough=True):
+    for g in GROUPS + (THOROUGH_GROUPS if thorough else []):
         run_group(ctx, g)
